@@ -235,22 +235,16 @@ func (conn *diskConn) closeFile(except *diskTrack) {
 // called locked
 func (conn *diskConn) close() []*diskTrack {
 	conn.closeFile(nil)
-	conn.resetOrigins()
+
+	conn.originLocal = time.Time{}
+	conn.originRemote = 0
 
 	tracks := make([]*diskTrack, 0, len(conn.tracks))
 	for _, t := range conn.tracks {
+		t.origin = none
 		tracks = append(tracks, t)
 	}
 	return tracks
-}
-
-// called locked
-func (conn *diskConn) resetOrigins() {
-	conn.originLocal = time.Time{}
-	conn.originRemote = 0
-	for _, t := range conn.tracks {
-		t.origin = none
-	}
 }
 
 func (conn *diskConn) Close() error {
@@ -682,12 +676,9 @@ func (t *diskTrack) writeBuffered(force bool) error {
 			// don't flush the track that is in the middle
 			// of writing
 			t.conn.closeFile(t)
-			t.conn.resetOrigins()
-			// the origin is normally set when the packet
-			// arrives
-			t.setOrigin(
-				ts, time.Now(), t.remote.Codec().ClockRate,
-			)
+			// move the origins of all tracks; ts is 2^31
+			// or more after the origin
+			t.adjustOriginBy(ts, int64(ts-value(t.origin)))
 		}
 
 		var keyframe bool
@@ -818,10 +809,14 @@ func (t *diskTrack) adjustOrigin(ts uint32) {
 	if !valid(t.origin) || value(t.origin) == ts {
 		return
 	}
+	t.adjustOriginBy(ts, int64(int32(ts-value(t.origin))))
+}
 
-	offset := rtptime.ToDuration(
-		int64(int32(ts-value(t.origin))), t.remote.Codec().ClockRate,
-	)
+// adjustOriginBy is like adjustOrigin, but is given the distance from the
+// origin of track t to ts explicitly.
+// Called locked.
+func (t *diskTrack) adjustOriginBy(ts uint32, ticks int64) {
+	offset := rtptime.ToDuration(ticks, t.remote.Codec().ClockRate)
 
 	if !t.conn.originLocal.Equal(time.Time{}) {
 		t.conn.originLocal = t.conn.originLocal.Add(offset)
